@@ -24,6 +24,7 @@ func init() {
 			{ID: "C10.R2", Text: "bus contract: one topic constant; every publish passes one *membership.Model; every subscriber is func(*membership.Model)", Run: c10r2},
 			{ID: "C10.R3", Text: "numbering formulas of the four mechanisms (self index+1 / len; leader 1, follower i+2 of the join-ordered list, total len+1; config / ordinal+1)", Run: c10r3},
 			{ID: "C10.R4", Text: "join order: both sort comparators return less ⇔ joinTime(i) < joinTime(j)", Run: c10r4},
+			{ID: "C10.R6", Text: "together with the partition rule: a member takes exactly chunk MemberNumber-1 of TotalMembers chunks (same rule as C09.R2)", Run: c09r2},
 			{ID: "C10.R5", Text: "Couchbase membership: lastActiveInstances is written only in the numbering step after the publish decision; on CAS mismatch the round is restarted (monitor re-entered), nothing is rewritten", Run: c10r5},
 		},
 	})
@@ -375,6 +376,41 @@ func c10r4(c *Ctx, id string) {
 	}
 	if n < 2 {
 		c.Undecided(id, "floor", 0, "only %d join-order comparators found (2 confirmed by hand)", n)
+	}
+	// what is compared is the member's own join time: every Service is built with (X.Name, X.ClusterJoinTime) of one
+	// identity X, and the constructor keeps both; the Couchbase heart-beat documents and the index carry the join
+	// time fixed at registration
+	ns := w.Func("servicediscovery", "NewService")
+	c.need(ns != nil, id, "servicediscovery.NewService")
+	for _, a := range allocsOf(ns, w.NamedType("servicediscovery", "Service")) {
+		tab, _ := allocTable(a)
+		ok := w.Origin(tab["Name"]) == "param("+ns.Params[1].Name()+")" && w.Origin(tab["ClusterJoinTime"]) == "param("+ns.Params[2].Name()+")"
+		c.Check(ok, id, "service-ctor", a.Pos(), "Service keeps (name, join time) as given", "NewService: "+tableStr(w, tab))
+	}
+	nCalls := 0
+	for _, cs := range w.callersOf(ns) {
+		nCalls++
+		c.see(cs.Fn)
+		cc := cs.Call.Common()
+		name, jt := w.Origin(cc.Args[1]), w.Origin(cc.Args[2])
+		x, ok1 := strings.CutSuffix(name, ".Name")
+		ok := ok1 && jt == x+".ClusterJoinTime"
+		c.Check(ok, id, "service-jointime@"+fname(cs.Fn), cs.Call.Pos(), "registered with the join time of the same identity ("+x+")", "a member is registered as ("+name+", "+jt+"): the leader would number followers by something else than their join time")
+	}
+	if nCalls < 2 {
+		c.Undecided(id, "service-jointime", 0, "only %d NewService call sites", nCalls)
+	}
+	hb := w.Method("couchbase", "cbMembership", "heartbeat")
+	if hb != nil {
+		for _, a := range allocsOf(hb, w.NamedType("couchbase", "Instance")) {
+			tab, _ := allocTable(a)
+			got := w.Origin(tab["ClusterJoinTime"])
+			c.Check(got == "recv.clusterJoinTime", id, "heartbeat-jointime", a.Pos(), "heart-beats repeat the join time fixed at registration", "heart-beat document carries ClusterJoinTime ← "+got)
+		}
+	}
+	jf := w.Field("couchbase", "cbMembership", "clusterJoinTime")
+	for _, fs := range w.fieldStores(jf) {
+		c.Check(fs.Fn.Name() == "register", id, "jointime-writer@"+fname(fs.Fn), fs.Store.Pos(), "join time fixed once, at registration", "the join time is rewritten in "+fname(fs.Fn))
 	}
 }
 
